@@ -443,6 +443,30 @@ pub fn gen(prop: &str, tier: &str, seed: u64) -> Out {
                 }
             }
         }
+        "C03" => {
+            let fc = c.clone().finite();
+            for _ in 0..scale(tier, 1500, 40000) {
+                let v = gen_value(&mut r, &fc, 0);
+                o.doc_stats(&v);
+                let d = hex(&v.to_vec());
+                let f = crate::ops_text::fmt_table(&v);
+                o.push(format!("tostr {} {}", d, f));
+                o.push(format!("topretty {} {}", d, f));
+                o.push(format!("tostrcheck {} {}", d, f));
+            }
+            // every single byte 0..=0x7f and some multi-byte characters as a string and as a key
+            for b in 0u32..=0x7f {
+                let s = char::from_u32(b).unwrap().to_string();
+                let v = Value::String(std::borrow::Cow::Owned(format!("a{}b", s)));
+                o.push(format!("tostr {} -", hex(&v.to_vec())));
+                o.push(format!("tostrcheck {} -", hex(&v.to_vec())));
+                let mut m = std::collections::BTreeMap::new();
+                m.insert(s.clone(), Value::Array(vec![Value::String(std::borrow::Cow::Owned(s))]));
+                let ov = Value::Object(m);
+                o.push(format!("topretty {} -", hex(&ov.to_vec())));
+                o.push(format!("tostrcheck {} -", hex(&ov.to_vec())));
+            }
+        }
         "C17" => {
             for _ in 0..scale(tier, 1200, 40000) {
                 let v = gen_value(&mut r, &c, 0);
